@@ -7,7 +7,9 @@
 From Coq Require Import NArith ZArith List String Bool.
 From SV Require Import KV.KvBase KV.KvLex KV.KvParse KV.KvSym KV.KvRoundtrip.
 From SV Require Import Fmt.VmfText Fmt.VmfTextProofs Fmt.VmfBlocks Fmt.VmfBlocksProofs Fmt.VmfFields Fmt.VmfFieldsProofs.
-From SV Require Import Gen.VmfTemplates_gen Gen.VmfKeys_gen Gen.VmfDispSizes_gen Gen.VmfOrder_gen Gen.VmfProg_gen Gen.VmfFieldsCfg_gen.
+From SV Require Import Fmt.VmfNum Fmt.VmfNumProofs Fmt.VmfGuard Fmt.VmfGuardProofs.
+From SV Require Import Fmt.VmfLite Fmt.VmfLiteProofs Fmt.VmfFlags Fmt.VmfFlagsProofs Fmt.VmfTok Fmt.VmfTokProofs Fmt.VmfPlane Fmt.VmfPlaneProofs.
+From SV Require Import Gen.VmfTemplates_gen Gen.VmfKeys_gen Gen.VmfDispSizes_gen Gen.VmfOrder_gen Gen.VmfProg_gen Gen.VmfFieldsCfg_gen Gen.VmfNumFmt_gen Gen.VmfLite_gen Gen.VmfFlags_gen.
 Import ListNotations.
 
 (** 1. Strings survive.  escape_text is inverted by the tokenizer's quoted-string scanner, for every string
@@ -178,3 +180,131 @@ Proof. exact fixups_roundtrip. Qed.
 Theorem c06_fixup_space_in_name_refuted :
   parse_fixup_line 2 (fixup_line 2 ([97; 32; 98], [118], 1%N)) <> ([97; 32; 98], [118], 1%N).
 Proof. exact fixup_space_in_name_refuted. Qed.
+
+(** 8. Numbers per field (round 3).  Gen/VmfNumFmt_gen.v lists, for every number of every written keyvalue line, the
+    formatter that writes each of its components (read from the interpolation and from format_float / the __str__
+    methods of Vec, Angle, UVAxis, Vec4): str(int), '1'/'0', repr(float), '%.pf', '%.pg'.  A format that [meets] a precision
+    class keeps every number -- x = m/d any rational, hence any finite double -- within that class: exactly, within 5e-7
+    absolutely, or within six significant digits (5e-6 relatively).  The check discharges, for every (block, key, index)
+    of the generated table, [field_meets block key index class num_fields] with the class the property demands of that
+    field (six significant digits for face rotation, output delay, multiblend/alphablend; 5e-7 for coordinates and
+    texture axes; exact for integers, flags and the numbers written by repr). *)
+Theorem c06_format_keeps_class : forall f c, meets f c = true ->
+  forall m d wn wd, (0 < d -> 0 < wd -> writes f m d wn wd -> within c m d wn wd)%Z.
+Proof. exact meets_sound. Qed.
+Theorem c06_number_field_within : forall b k i c l, field_meets b k i c l = true ->
+  (exists f, In f l /\ nf_block f = b /\ nf_key f = k /\ nf_idx f = i) /\
+  forall f, In f l -> nf_block f = b -> nf_key f = k -> nf_idx f = i ->
+  forall x, In x (nf_fmts f) -> forall m d wn wd, (0 < d -> 0 < wd -> writes x m d wn wd -> within c m d wn wd)%Z.
+Proof. exact field_meets_sound. Qed.
+(** The table is tight: six decimals do not give six significant digits (1/30 -> 0.033333: an output delay written with
+    format_float), six significant digits do not give 5e-7 (1234567.5 -> 1.23457e+06: a coordinate written with :g), five
+    decimals / five digits are not enough, six decimals are not exact. *)
+Theorem c06_six_decimals_not_six_digits : exists m d wn wd, (0 < d /\ 0 < wd /\ writes (FmtF 6) m d wn wd /\ ~ within PSig6 m d wn wd)%Z.
+Proof. exact f6_not_sig6. Qed.
+Theorem c06_six_digits_not_six_decimals : exists m d wn wd, (0 < d /\ 0 < wd /\ writes (FmtG 6) m d wn wd /\ ~ within PAbs6 m d wn wd)%Z.
+Proof. exact g6_not_abs6. Qed.
+Theorem c06_five_decimals_refuted : exists m d wn wd, (0 < d /\ 0 < wd /\ writes (FmtF 5) m d wn wd /\ ~ within PAbs6 m d wn wd)%Z.
+Proof. exact f5_not_abs6. Qed.
+Theorem c06_five_digits_refuted : exists m d wn wd, (0 < d /\ 0 < wd /\ writes (FmtG 5) m d wn wd /\ ~ within PSig6 m d wn wd)%Z.
+Proof. exact g5_not_sig6. Qed.
+Theorem c06_six_decimals_not_exact : exists m d wn wd, (0 < d /\ 0 < wd /\ writes (FmtF 6) m d wn wd /\ ~ within PExact m d wn wd)%Z.
+Proof. exact f6_not_exact. Qed.
+
+(** 9. Optional groups of displacement arrays (round 3).  The multiblend arrays are written only under a guard; the reader
+    leaves the vertex defaults when they are absent.  If the generated group passes [optgroup_ok primary] -- the guard is
+    "some vertex has a truthy member m", m is the member carried by the array named [primary] and m is falsy in a fresh
+    vertex -- then that member survives export and parse for every list of vertices ([get]/[truthy]/[dflt]: any vertex
+    type whose falsy members equal the default's).  The other members of the group are lost when the guard member is
+    default everywhere (limit of the representation, accepted by the comparison), and a guard on another member loses
+    the primary one. *)
+Theorem c06_optional_group_roundtrip : forall (vert val : Type) (get : string -> vert -> val) (truthy : string -> vert -> bool)
+    (dflt : vert) primary g,
+  optgroup_ok primary g = true ->
+  (forall m, In m (og_falsy_default g) -> forall v, truthy m v = false -> get m v = get m dflt) ->
+  exists m, assoc primary (og_arrays g) = Some m /\
+    forall vs, map (get m) (parse_group vert dflt (List.length vs) (export_group vert truthy m vs)) = map (get m) vs.
+Proof. exact group_roundtrip. Qed.
+Theorem c06_unguarded_member_lost :
+  exists vs, map (ex_get "alpha") (parse_group _ (0, 0)%Z (List.length vs) (export_group _ ex_truthy "blend" vs)) <> map (ex_get "alpha") vs.
+Proof. exact unguarded_member_lost. Qed.
+Theorem c06_guard_on_other_member_refuted :
+  exists vs, map (ex_get "blend") (parse_group _ (0, 0)%Z (List.length vs) (export_group _ ex_truthy "alpha" vs)) <> map (ex_get "blend") vs.
+Proof. exact guard_on_other_member_refuted. Qed.
+
+(** 10. The object level (round 3, "vmf_lite").  Gen/VmfLite_gen.v lists, per class of the object graph (Camera, Cordon,
+    VisGroup, EntityGroup, Solid, Side incl. dispinfo and point_data, Entity, VMF), the written lines with the attributes each
+    value is computed from, and the looked-up keys with the attributes each value flows into (data flow through locals,
+    containers and the constructor).  [lite_paired c]: every written literal key is looked up in the same block and flows into
+    exactly the attributes it was computed from; keys of one block are distinct.  [lite_attrs_written c]: every attribute the
+    reader fills is written.  For a paired class the text the reader finds under the key of a line is that line's text, it
+    is stored into the line's attributes only, a one-attribute line gives the attribute its value back when the field codec
+    inverts (the per-field theorems above), and changing the object elsewhere does not change what is found (no cross-talk).
+    [enc] is any function of the entry and of the values of its attributes. *)
+Theorem c06_lite_paired_meaning : forall c, lite_paired c = true ->
+  forall w, In w (lc_written c) -> le_dyn w = false -> le_attrs w <> [] ->
+  exists r, In r (lc_read c) /\ le_block r = le_block w /\ le_key r = le_key w /\ le_dyn r = false /\
+            forall a, In a (le_attrs w) <-> In a (le_attrs r).
+Proof. exact lite_paired_sound. Qed.
+Theorem c06_lite_scalar_roundtrip : forall (V T : Type) (enc : lentry -> list V -> T) c, lite_paired c = true ->
+  forall w a, In w (lc_written c) -> le_dyn w = false -> le_attrs w = [a] ->
+  exists r, In r (lc_read c) /\ le_dyn r = false /\ (forall a', In a' (le_attrs r) <-> a' = a) /\
+    forall (o : obj V) (dec : T -> V), (forall v, dec (enc w [v]) = v) ->
+      option_map dec (llookup T (le_block r) (le_key r) (export_lines V T enc c o)) = Some (o a).
+Proof. exact lite_scalar_roundtrip. Qed.
+Theorem c06_lite_no_crosstalk : forall (V T : Type) (enc : lentry -> list V -> T) c, lite_paired c = true ->
+  forall w, In w (lc_written c) -> le_dyn w = false ->
+  forall (o o' : obj V), (forall a, In a (le_attrs w) -> o a = o' a) ->
+    llookup T (le_block w) (le_key w) (export_lines V T enc c o) = llookup T (le_block w) (le_key w) (export_lines V T enc c o').
+Proof. exact lite_no_crosstalk. Qed.
+Theorem c06_lite_no_attribute_forgotten : forall c, lite_attrs_written c = true ->
+  forall a, (exists r, In r (lc_read c) /\ In a (le_attrs r)) \/ In a (lc_kids_read c) ->
+  (exists w, In w (lc_written c) /\ In a (le_attrs w)) \/ In a (lc_kids_written c).
+Proof. exact lite_attrs_written_sound. Qed.
+(** Swapped reader keys, a forgotten line, a key written twice in one block: each is rejected and does lose content. *)
+Theorem c06_lite_swapped_keys_refuted : lite_paired ex_swapped = false /\
+  exists r, find_entry "side" "uaxis" (lc_read ex_swapped) = Some r /\ le_attrs r = ["vaxis"]%string /\
+    forall o : obj nat, llookup nat "side" "uaxis" (export_lines nat nat ex_enc ex_swapped o) = Some (o "uaxis"%string).
+Proof. exact lite_swapped_refuted. Qed.
+Theorem c06_lite_forgotten_line_refuted : lite_paired ex_forgotten = true /\ lite_attrs_written ex_forgotten = false /\
+  forall o : obj nat, llookup nat "side" "vaxis" (export_lines nat nat ex_enc ex_forgotten o) = None.
+Proof. exact lite_forgotten_refuted. Qed.
+Theorem c06_lite_duplicate_key_refuted : lite_paired ex_duplicate = false /\
+  forall o : obj nat, llookup nat "side" "uaxis" (export_lines nat nat ex_enc ex_duplicate o) = Some (o "uaxis"%string).
+Proof. exact lite_duplicate_key_refuted. Qed.
+
+(** 11. Displacement flags (round 3).  Gen/VmfFlags_gen.v holds what the lines "flags" and "subdiv" contain for each of
+    the 16 values of DispFlag (the writer's two interpolated expressions, evaluated on every value), the table the reader
+    indexes with the number under "flags", and the bit it sets when "subdiv" is true.  If the generated objects pass
+    [flags_tables_ok], every flag value survives export and parse. *)
+Theorem c06_disp_flags_roundtrip : forall written t2c sub n, flags_tables_ok written t2c sub n = true ->
+  forall f, (N.to_nat f < n)%nat ->
+  exists p, flags_write written f = Some p /\ flags_read t2c sub p = Some f.
+Proof. exact flags_roundtrip. Qed.
+Theorem c06_disp_flags_not_inverse_refuted : flags_tables_ok ex_written_bad ex_t2c 8 8 = false /\
+  exists p, flags_write ex_written_bad 7 = Some p /\ flags_read ex_t2c 8 p = Some 6%N.
+Proof. exact flags_not_inverse_refuted. Qed.
+
+(** 12. The text of number groups (round 3).  Three number tokens (non-empty, no white space, no brackets: what number
+    formatting produces) joined by spaces, bare or wrapped in one pair of brackets of any of the four kinds -- how Vec and Angle
+    values are written by every line template -- are taken apart by math.parse_vec_str (strip, drop one bracket at each
+    end, split()) into the same three tokens; "[x y z offset] scale" is taken apart by UVAxis.parse (split(), lstrip('['),
+    rstrip(']')) into its five tokens in order.  The models parse_vec / uv_parse / uv_text / join_sp are tied to the code by
+    correspondence on every run. *)
+Theorem c06_vec_text_roundtrip : forall x y z o c, tok_ok x = true -> tok_ok y = true -> tok_ok z = true -> tk_wrap_ok o c = true ->
+  parse_vec (tk_wrap o c (vec_text x y z)) = Some (x, y, z).
+Proof. exact vec_text_roundtrip. Qed.
+Theorem c06_uvaxis_text_roundtrip : forall a b c d e, forallb tok_ok [a; b; c; d; e] = true ->
+  uv_parse (uv_text [a; b; c; d; e]) = Some [a; b; c; d; e].
+Proof. exact uv_text_roundtrip. Qed.
+Theorem c06_vec_token_with_space_refuted : parse_vec (vec_text [49; 32; 50] [51] [52])%N <> Some ([49; 32; 50], [51], [52])%N.
+Proof. exact vec_token_with_space_refuted. Qed.
+
+(** 13. The plane triple (round 3).  "(v1) (v2) (v3)" with three texts free of parentheses is taken apart by
+    value[1:-1].split(") (") into the three texts (each then goes through parse_vec_str, section 12).  Tied by
+    correspondence with Side.parse / Side.export on every run. *)
+Theorem c06_plane_text_roundtrip : forall a b c, no_paren a = true -> no_paren b = true -> no_paren c = true ->
+  plane_parse (plane_text a b c) = Some (a, b, c).
+Proof. exact plane_text_roundtrip. Qed.
+Theorem c06_plane_paren_in_part_refuted : plane_parse (plane_text [49; 41; 32; 40; 50] [51] [52])%N = None.
+Proof. exact plane_paren_in_part_refuted. Qed.
